@@ -245,6 +245,9 @@ def evaluate(case):
             for i, v in zip(e.rows, e.values):
                 nv = "null" if v is None else (("n", float(v)) if days else norm_value(v))
                 want[(ctx, w, ref_cid(e), labels[i], nv)] += 1
+    ev.labels.append("report-compared")
+    if any(e.rows is not None and len(e.rows) >= 3 for e in ref.errors):
+        ev.labels.append("report-compared:error-with>=3-cells")
     got = Counter()
     for (ctx, col, cid, lab, val), k in rep.items():
         if ctx not in ("Column", "SeriesSchema"):
